@@ -18,10 +18,12 @@ package funnel
 
 import (
 	"context"
+	"fmt"
 	"time"
 
 	"github.com/conduitio/conduit-commons/opencdc"
 	"github.com/conduitio/conduit/pkg/foundation/cerrors"
+	"github.com/conduitio/conduit/pkg/foundation/cerrors/conduiterr"
 	"github.com/conduitio/conduit/pkg/foundation/log"
 )
 
@@ -88,6 +90,22 @@ func (t *SourceTask) Do(ctx context.Context, b *Batch) error {
 	recs, err := t.source.Read(ctx)
 	if err != nil {
 		return cerrors.Errorf("failed to read from source: %w", err)
+	}
+
+	// Every record has to carry a non-empty position. An empty one can't be
+	// acked (see CodeEmptySourcePosition) and, worse, "position == nil" is what
+	// Batch uses to mark the tail pieces of a split record: a fan-out processor
+	// splitting such a record makes Batch.SplitRecord panic. Refuse the batch
+	// here, before any task sees it; nothing is acked. Fatal, because the source
+	// would emit the same record again after a restart.
+	for i, r := range recs {
+		if len(r.Position) == 0 {
+			ce := conduiterr.New(CodeEmptySourcePosition, fmt.Sprintf(
+				"source returned a record with an empty position (index %d of %d)", i, len(recs),
+			))
+			ce.Suggestion = "this is a source-connector bug: every record must carry a distinct, non-empty position"
+			return cerrors.FatalError(ce)
+		}
 	}
 
 	t.metrics.Observe(recs, start)
